@@ -187,7 +187,10 @@ func (u *CacheOnReadFs) Remove(name string) error {
 	}
 	switch st {
 	case cacheLocal:
-	case cacheHit, cacheStale, cacheMiss:
+	case cacheMiss:
+		// nothing to remove in the layer
+		return u.base.Remove(name)
+	case cacheHit, cacheStale:
 		err = u.base.Remove(name)
 	}
 	if err != nil {
